@@ -131,7 +131,7 @@ def run(tw, tier, seed, only=None):
             samples.append(rxns)
         if len(fails) > 20:
             break
-    return {"cases": cases, "nontrivial": nontriv, "failures": fails[:20], "samples": samples, "exhaustive": False,
+    return {"cases": cases, "nontrivial": nontriv, "failures": fails, "samples": samples, "exhaustive": False,
             "evaluations": tw.evaluations,
             "bound": "3 textbook networks + all networks over 3 species with <= 2 reactions (%d) + %d random networks <= 6 species / 6 reactions; exact ranks by sympy" % (ex - 3, cases - ex),
             "rule": "a network is non-trivial when it has more than two complexes"}
